@@ -165,11 +165,42 @@ def run(chk):
             ctx.append(RollPass.OutProfile.width(spread_width))
         try:
             returned = seq.solve(ip)
+            check_sequence(chk, name, seq, returned, ip, prec)
+            chk.cov['evaluations'] += 1
+            # histories: the same sequence solved again with another incoming profile, then with a changed gap
+            from pyroll.core import Profile, BaseRollPass
+            d0 = ip.cross_section.bounds[2] - ip.cross_section.bounds[0]
+            ip2 = Profile.round(diameter=0.94 * d0, **{k: v for k, v in ip.__dict__.items() if not k.startswith('_') and k not in ('cross_section', 'classifiers', 't')})
+            try:
+                returned2 = seq.solve(ip2)
+            except RuntimeError as e:       # the physical models do not solve for this input: nothing to compare
+                chk.notes.append(f"{name}: re-solve with a smaller profile failed ({e})")
+                done.append(name)
+                continue
+            check_sequence(chk, name + ' (solved again with a smaller incoming profile)', seq, returned2, ip2, prec)
+            chk.cov['evaluations'] += 1
+
+            def first_pass(u):
+                for x in u.subunits:
+                    if isinstance(x, BaseRollPass):
+                        return x
+                    if x.subunits and not isinstance(x, BaseRollPass):
+                        r = first_pass(x)
+                        if r is not None:
+                            return r
+                return None
+            fp = first_pass(seq)
+            if fp is not None:
+                fp.gap = float(fp.gap) * 1.5
+                try:
+                    returned3 = seq.solve(ip2)
+                    check_sequence(chk, name + ' (solved again after opening the first gap)', seq, returned3, ip2, prec)
+                    chk.cov['evaluations'] += 1
+                except RuntimeError as e:
+                    chk.notes.append(f"{name}: re-solve with an opened gap failed ({e})")
         finally:
             for hf in ctx:
                 hf.hook.remove_function(hf)
-        check_sequence(chk, name, seq, returned, ip, prec)
-        chk.cov['evaluations'] += 1
         done.append(name)
     chk.cov['distinct_nontrivial'] += len(done)
     chk.sample({'layouts': done})
